@@ -941,6 +941,9 @@ def gen_whole_record(rng, counts):
 
 # ---------------------------------------------------------------- (c') awkward but legal annotation values
 
+DEFERRED_MODULES = []       # modules of the record being generated that are added after a first conversion
+
+
 def enrich(rng, record, genes, counts, n, circular):
     """ adds what gen_whole_record leaves out: sec_met domains, gene functions of every kind, awkward notes,
         modules, sideloaded areas with awkward tool names / labels / extra qualifiers """
@@ -1011,6 +1014,13 @@ def enrich(rng, record, genes, counts, n, circular):
                             starter=rng.random() < 0.2, final=rng.random() < 0.2, iterative=rng.random() < 0.1)
             if rng.random() < 0.5:
                 module.add_monomer(rng.choice(["mal", "ala", "X"]), rng.choice(["mal", "d-ala", "redmal"]))
+            if rng.random() < 0.3:
+                # this module is added only when the record is otherwise complete and has been converted once (see
+                # whole_record_stream): the pipeline converts the record more than once (results JSON, record GenBank, one
+                # conversion per region file) and what is written LATER must not depend on an earlier conversion
+                DEFERRED_MODULES.append(module)
+                counts["module_deferred_until_after_a_conversion"] += 1
+                continue
             record.add_module(module)
             counts["module"] += 1
         except Exception as exc:  # pylint: disable=broad-except
@@ -1814,11 +1824,17 @@ def whole_record_stream(chk, total, known_listed, known2_listed, known3_listed=F
     for _ in range(total):
         state_before = rng.getstate()
         violations_before = len(chk.violations)
+        del DEFERRED_MODULES[:]
         built = gen_whole_record(rng, counts)
         try:
             built.create_candidate_clusters()
             built.create_regions()
             set_candidate_structures(rng, built, counts)
+            if DEFERRED_MODULES:
+                built.to_biopython()                      # an earlier save, its result is not used
+                for module in DEFERRED_MODULES:
+                    built.add_module(module)
+                counts["records_converted_before_their_last_modules_were_added"] += 1
         except Exception as exc:  # pylint: disable=broad-except
             counts["setup_" + type(exc).__name__] += 1   # formation / region defects belong to C05 / C06
             setup_failures.append(f"{type(exc).__name__}: {exc}"[:200])
